@@ -397,7 +397,7 @@ def generic_pbt(prop, tier, n_quick, n_thorough, size_quick=100, size_thorough=1
     env = {'VERIF_TIER': tier, 'VERIF_OPEN_FINDINGS': opens}
     if extra_env:
         env.update(extra_env)
-    seen = set()
+    seen = set(); t_confirm = time.time()
     for f in m['fails']:
         if f['text'] is None:
             res.broken = 'harness crashed without a current case: ' + f['msg'][-800:]
@@ -405,6 +405,11 @@ def generic_pbt(prop, tier, n_quick, n_thorough, size_quick=100, size_thorough=1
         if f['text'] in seen:
             continue
         seen.add(f['text'])
+        # every failure is replayed 3x (and crashes are minimised) before it is reported; on a tree with a shallow defect there can be
+        # hundreds of failing cases, so stop once three violations are confirmed or five minutes were spent and one is
+        if len(res.violations) >= 3 or (res.violations and time.time() - t_confirm > 300):
+            res.cov['further_failing_cases_not_replayed'] = res.cov.get('further_failing_cases_not_replayed', 0) + 1
+            continue
         confirm_and_report(res, prop, bins['replay'], f['text'], f['msg'], f['crash'], env)
     for k, v in m['known'].items():
         res.known[k] = res.known.get(k, 0) + v
@@ -415,7 +420,7 @@ def generic_pbt(prop, tier, n_quick, n_thorough, size_quick=100, size_thorough=1
         for k in res_tags:
             del m['tags'][k]
     fuzz_cov = {}
-    if fuzz:
+    if fuzz and not res.violations:      # (a campaign on a tree that already violates the property would only repeat the finding)
         for spec in fuzz:
             run_fuzz(prop, spec['target'], spec.get('seeds', []), spec['budget'][1 if tier == 'thorough' else 0], spec['jobs'][1 if tier == 'thorough' else 0], tier, spec.get('max_len', 4096), res, fuzz_cov)
     cov = {
